@@ -470,9 +470,11 @@ func propC12(t veriflib.TB, outer *testing.T, c c12Case) {
 	var nontrivial bool
 	var classes []string
 	var oplog []string
+	done := veriflib.WatchCase("C12", "C12/model", c)
 	synctest.Test(outer, func(st *testing.T) {
 		viol, nontrivial, classes = c12Run(c, &oplog)
 	})
+	done()
 	if viol != "" {
 		veriflib.Fail(t, "C12", "C12/model", c, oplog, "%s\nhistory: %s", viol, strings.Join(oplog, " ; "))
 	}
@@ -502,6 +504,9 @@ func genC12(t *rapid.T) c12Case {
 func TestVerif_C12_Model(t *testing.T) {
 	defer veriflib.Flush()
 	verifcfg.Quiet()
+	// a lock cycle in the reactor is invisible to the virtual clock (waiting for a mutex is not a durable block): a case
+	// (normally well under a millisecond) that takes two minutes of wall-clock time is reported as stuck
+	veriflib.WatchStart(2 * time.Minute)
 	var rc c12Case
 	if veriflib.ReplayCase("C12/model", &rc) {
 		propC12(t, t, rc)
@@ -530,7 +535,6 @@ func TestVerifKF_C12_FrozenAcceptsInsert(t *testing.T) {
 	}
 	propC12(t, t, c)
 }
-
 
 // Stress: many rounds of feedback racing with the finish of the same seed, accounting checked after every round.
 // (The window between a presence check and a store is a few instructions wide: it needs volume, not variety.)
